@@ -203,17 +203,15 @@ impl CartState for MBC1CartState {
   }
 
   fn get_rom_bank(&self) -> usize {
-    if self.select_ram {
-      self.rom_bank
-    } else {
-      let bank_high = self.ram_bank << 5;
-      let mut bank = self.rom_bank;
-      if bank == 0 {
-        bank = 1;
-      }
-      bank |= bank_high;
-      bank
+    // the 0 -> 1 translation of the five-bit register applies in both modes
+    let mut bank = self.rom_bank;
+    if bank == 0 {
+      bank = 1;
     }
+    if !self.select_ram {
+      bank |= self.ram_bank << 5;
+    }
+    bank
   }
 
   fn get_ram_bank(&self) -> usize {
